@@ -1,5 +1,5 @@
 """C16 - parallelogram coupling is applied consistently in forward and inverse kinematics."""
-from .. import algebra, mir, util
+from .. import algebra, mir, util, opw
 from ..mir import cname, strip, callee_name, show
 
 EXPLANATION = ('Decides from MIR with the ring normaliser: the forward pre-map P(q)[coupled] = q[coupled] - scaling*q[driven] (other slots '
@@ -221,7 +221,20 @@ def _postmap_of(ctx, prog, b, inner, name, bi):
                         res['returns_inner'] = True
                         return res
     # the returned vector is the (updated) inner result
-    rvs = [strip(x[0]) for x in b.return_values()]
+    def empty_case(d):
+        # an early `return solutions` taken only when there is nothing to map
+        if not d:
+            return False
+        for g, k, sw in b.guard_terms(d[1]):
+            g = strip(g)
+            if isinstance(g, tuple) and g[0] == 'call' and cname(g[1]).split('::')[-1] == 'is_empty' and opw.truth(k) is True:
+                recv = strip(g[2])
+                while isinstance(recv, tuple) and recv[0] == 'call' and cname(recv[1]) in ('DerefMut::deref_mut', 'Deref::deref'):
+                    recv = strip(recv[2])
+                if recv == inner:
+                    return True
+        return False
+    rvs = [strip(x[0]) for x in b.return_values() if not (strip(x[0]) == inner and empty_case(x[1]))]
     res['returns_inner'] = len(rvs) == 1 and rvs[0] == inner
     return res
 
